@@ -320,7 +320,7 @@ func init() {
 			"oracle on the complete-unlock system txs of finalised payloads: not before request time + required delay, exactly once, in (maturity, request) order, <= 16 per block, all released after a drain phase; " +
 			"a validator pushed below a threshold is inactive with power 0 and out of the next set in the same block, and exited validators' unlocks queue min(requested, holding). Non-trivial = every accepted unlock request; distinct = (exiting, status, below-threshold, clipped, batch size).",
 		Assume: []string{"liveness is judged as bounded progress: one time step beyond the exit period plus ceil(backlog/16)+4 blocks"},
-		Cases:  func(tier string) int { return map[string]int{"quick": 32, "thorough": 300}[tier] },
+		Cases:  func(tier string) int { return map[string]int{"quick": 48, "thorough": 300}[tier] },
 		Run:    func(c *vc.Ctx, i int) { c15History(c, i) },
 	})
 }
